@@ -49,6 +49,9 @@ MCInit == \/ \E s \in Strs : InitWith([op |-> "pct", in |-> s])
                 c \in {"deadline", "servercancel", "early"}, n \in {0, 2} :
                 /\ (n > 0 => k \in {"server", "bidi"} /\ c # "early")
                 /\ InitWith([op |-> "handler_ctx", proto |-> p, used |-> k, text |-> c, n |-> n])
+          \* C14: the response head and the cancellation race, the response wins
+          \/ \E p \in {"connect", "grpc", "grpcweb"}, k \in {"unary", "client", "server", "bidi"}, w \in {0, 30} :
+                InitWith([op |-> "late_response", proto |-> p, used |-> k, d |-> w])
           \* C11: error metadata when the error payload exceeds the client's read limit
           \/ \E p \in {"connect", "grpc", "grpcweb"} : InitWith([op |-> "errmeta_limit", proto |-> p])
           \* C10: a stream created under a deadline and first used later
